@@ -141,6 +141,7 @@ class Enc:
         self.bool_atoms = set()
         self.encoded = False
         self.order = []         # ('mod', r, terms, const) | ('mul', t, a, b) in creation order
+        self.linrows = []       # purely linear gate rows: (const, {atom: symmetric coef})
 
     # ---- atoms -------------------------------------------------------------------------------
     def v(self, cell):
@@ -312,6 +313,8 @@ class Enc:
     def constraint(self, poly, monomial_mode=False):
         P = self.P
         const, lin, quad, high = self.split_poly(poly)
+        if not quad and not high:
+            self.linrows.append((sym(const, P), {n: sym(c, P) for n, c in lin.items() if c % P}))
         terms = []
         for k, syms in high:
             # nested products in canonical order
@@ -343,7 +346,63 @@ class Enc:
                     continue
                 self.modeq([(-1, t)] + [(sym(k, P), self.fmul(x, b)) for k, b in grp] + ([(sym(cx, P), x)] if cx else []), 0)
         terms += [(sym(c, P), n) for n, c in lin.items() if c % P]
+        if self.small_domain_row(terms, sym(const, P)):
+            return
         self.modeq(terms, sym(const, P))
+
+    def small_domain_row(self, terms, const):
+        """Row with exactly one statically unbounded atom u (coefficient +-1) whose other atoms range over
+        a small finite domain (bits, small products): enumerate the domain to learn the exact value set
+        of u. When every value is a small non-negative integer the row is an integer equation and u gets a
+        static bound (e.g. the output of an and/or/xor/select-on-bits gate is a bit). Derived from the row
+        itself, hence sound."""
+        P = self.P
+        unb = [(c, a) for c, a in terms if self.bound(a) >= P]
+        if len(unb) != 1 or unb[0][0] not in (1, -1):
+            return False
+        cu, u = unb[0]
+        rest = [(c, a) for c, a in terms if a != u]
+        pdef = {it[1]: (it[2], it[3]) for it in self.order if it[0] == "mul"}
+        base = []
+
+        def collect(a):
+            if isinstance(a, int):
+                return True
+            if a in pdef:
+                return collect(pdef[a][0]) and collect(pdef[a][1])
+            if self.bound(a) > 4:
+                return False
+            if a not in base:
+                base.append(a)
+            return True
+        if not all(collect(a) for _, a in rest):
+            return False
+        size = 1
+        for a in base:
+            size *= self.bound(a)
+        if size > 256:
+            return False
+        import itertools
+        vals = set()
+        for combo in itertools.product(*[range(self.bound(a)) for a in base]):
+            env = dict(zip(base, combo))
+
+            def ev(a):
+                if isinstance(a, int):
+                    return a
+                if a in pdef:
+                    return ev(pdef[a][0]) * ev(pdef[a][1])
+                return env[a]
+            r = const + sum(c * ev(a) for c, a in rest)
+            vals.add(-cu * r)
+        if min(vals) < 0 or max(vals) >= 1 << 32:
+            return False
+        body = self.lin_smt([(-cu * c, a) for c, a in rest], -cu * const)
+        self.lines.append(f"(assert (= {u} {body}))")
+        self.set_bound(u, max(vals) + 1)
+        if max(vals) <= 1:
+            self.bool_atoms.add(u)
+        return True
 
     def lookup(self, lk):
         P = self.P
@@ -429,9 +488,151 @@ class Enc:
                 self.bool_atoms.add(b)
             else:
                 rest.append(g)
+        self.infer_bounds([g["poly"] for g in rest])
         for g in rest:
             self.constraint(g["poly"], monomial_mode)
+        self.flat_lemmas()
         self.encoded = True
+
+    def infer_bounds(self, polys):
+        """Static range inference to a fixpoint, before anything is emitted. A row with exactly one
+        statically unbounded cell u (coefficient +-1, not inside a product) determines u = R mod p with R an
+        integer expression of bounded cells; if interval arithmetic (or, for sign-mixed rows over a small
+        finite domain, enumeration) shows 0 <= R < p then u = R exactly and u inherits R's range. Every
+        derived bound is a consequence of that row and the bounds it used, hence sound."""
+        P = self.P
+        import itertools
+        rows = []
+        for poly in polys:
+            const, lin, quad, high = self.split_poly(poly)
+            if high:
+                continue
+            rows.append((sym(const, P), {a: sym(c, P) for a, c in lin.items() if c % P},
+                         [(sym(k, P), a, b) for k, a, b in quad]))
+        for _ in range(12):
+            changed = False
+            for const, lin, quad in rows:
+                inq = set()
+                for k, a, b in quad:
+                    inq.add(a)
+                    inq.add(b)
+                unb = [a for a in lin if self.bound(a) >= P]
+                if len(unb) != 1 or lin[unb[0]] not in (1, -1) or unb[0] in inq:
+                    continue
+                if any(self.bound(a) >= P for a in inq):
+                    continue
+                u = unb[0]
+                cu = lin[u]
+                lo = hi = -cu * const
+                for a, c in lin.items():
+                    if a == u:
+                        continue
+                    v = -cu * c * (self.bound(a) - 1)
+                    lo, hi = lo + min(0, v), hi + max(0, v)
+                for k, a, b in quad:
+                    v = -cu * k * (self.bound(a) - 1) * (self.bound(b) - 1)
+                    lo, hi = lo + min(0, v), hi + max(0, v)
+                if lo >= 0 and hi < min(P, 1 << 250):
+                    if hi + 1 < self.bound(u):
+                        self.set_bound(u, hi + 1)
+                        self.lines.append(f"(assert (< {u} {hi + 1}))")
+                        changed = True
+                    continue
+                base = sorted(set(a for a in lin if a != u) | inq)
+                size = 1
+                for a in base:
+                    size *= self.bound(a)
+                if size > 256 or hi >= min(P, 1 << 250):
+                    continue
+                vals = set()
+                for combo in itertools.product(*[range(self.bound(a)) for a in base]):
+                    env = dict(zip(base, combo))
+                    r = const + sum(c * env[a] for a, c in lin.items() if a != u) + sum(k * env[a] * env[b] for k, a, b in quad)
+                    vals.add(-cu * r)
+                if min(vals) >= 0 and max(vals) + 1 < self.bound(u):
+                    self.set_bound(u, max(vals) + 1)
+                    self.lines.append(f"(assert (< {u} {max(vals) + 1}))")
+                    if max(vals) <= 1:
+                        self.bool_atoms.add(u)
+                    changed = True
+            if not changed:
+                break
+
+    def flat_lemmas(self):
+        """Running-remainder chains (x = d0 + 2 d1 + ... + y1, y1 = 16 d4 + ... + y2, ...) are linear rows
+        that each hold mod p. Their composition x == sum coef_i digit_i (mod p) is a consequence of the
+        system; state it directly (as an integer equation when the digit bounds exclude wrap-around) so
+        the solver does not have to case-split one quotient per row."""
+        P = self.P
+        heads = set()
+        for const, lin in self.linrows:
+            for a, c in lin.items():
+                if c in (1, -1):
+                    heads.add(a)
+        for x in sorted(heads):
+            dg = self.flatten_digits(x)
+            if not dg or len(dg) < 2:
+                continue
+            # only worth stating when a chain was followed (some row head other than x was eliminated)
+            direct = any(set(a for _, a in dg) <= set(lin) for _, lin in self.linrows if x in lin)
+            if direct:
+                continue
+            self.modeq([(c, a) for c, a in dg] + [(-1, x)], 0)
+
+    # ---- radix decompositions --------------------------------------------------------------------
+    def flatten_digits(self, x, max_digit_bound=1 << 64, depth=0, skip=None):
+        """Try to express atom x as sum(coef_i * digit_i) using the purely linear rows of the system
+        (following running-remainder chains). Returns [(coef, atom)] or None. Heuristic only: every use
+        of the result is guarded by premises inside the solver."""
+        if depth > 80:
+            return None
+        for ri, (const, lin) in enumerate(self.linrows):
+            if skip is not None and ri in skip:
+                continue
+            c = lin.get(x)
+            if c not in (1, -1) or const != 0:
+                continue
+            others = [(-cc * c, a) for a, cc in lin.items() if a != x]   # x = sum others
+            if not others or any(cc <= 0 for cc, _ in others):
+                continue
+            out, ok = [], True
+            for cc, a in others:
+                sub = self.flatten_digits(a, max_digit_bound, depth + 1, (skip or set()) | {ri})
+                if sub is not None and all(c2 > 0 for c2, _ in sub):
+                    out += [(cc * c2, a2) for c2, a2 in sub]
+                elif self.bound(a) <= max_digit_bound:
+                    out.append((cc, a))
+                else:
+                    ok = False
+                    break
+            if ok:
+                return sorted(out)
+        return None
+
+    def radix_hint(self, x, bits):
+        """bits: spec-side definitional bit atoms of x (little endian). If the system itself decomposes
+        x into power-of-two digits, add the (valid) uniqueness theorem instantiated on both."""
+        if isinstance(x, int):
+            return False
+        dg = self.flatten_digits(x)
+        if not dg:
+            return False
+        pos, groups = 0, []
+        for coef, a in dg:
+            B = self.bound(a)
+            if coef != (1 << pos) or B & (B - 1) or B < 2:
+                return False
+            w = B.bit_length() - 1
+            groups.append((a, pos, w))
+            pos += w
+        if pos != len(bits):
+            return False
+        from .cspec import wsum
+        total = "(+ 0 " + " ".join(f"(* {1 << p} {a})" for a, p, w in groups) + ")"
+        eqs = " ".join(f"(= {a} {wsum(bits[p:p + w])})" for a, p, w in groups)
+        rng = " ".join(f"(<= 0 {a}) (< {a} {1 << w})" for a, p, w in groups)
+        self.lines.append(f"(assert (=> (and (= {x} {total}) (= {x} {wsum(bits)}) {rng}) (and {eqs})))")
+        return True
 
     def assoc_lemmas(self, rounds=1, max_products=16):
         """Associativity instances between abstract products: for t1 = a*b and t2 = u*c,
